@@ -102,82 +102,84 @@ def gen_inputs(ctx, sd):
                      dict(base_consts(), GenLen=plen + d, Sim=False, Gaps=[1], Prefixes=q(pref),
                           DbN=q("a"), RpN=q("p"), UpdNames=q("<none>"), UpdDurs=[NONE], UpdRFs=[NONE, 1], UpdSGDs=[NONE, 3],
                           Times=ctx.pick([0, 3, 4], [0, 2, 3, 4, 5]), Addrs=q("h4"), SameAddr=True,
-                          Cmds=q(*(GROUP_CMDS + ["UpdateRetentionPolicy"]))),
+                          Cmds=q(*([x for x in GROUP_CMDS if not (pref.startswith("aged") and x in ("CopyShardOwner", "RemoveShardOwner"))]
+                                   + ["UpdateRetentionPolicy"]))),
                      dict(exhaustive=True, workers=2), None))
     for (tag, auto, cfg, c, kw, lim) in jobs:
         ctx.write_cfg(sd, cfg, "GSpec", c, extra="INVARIANT Emit")
+    reps = ctx.pick(3, 5)
 
     def one(job):
+        # one input file per generator run (the parsed logs are dropped at once: they are large)
         tag, auto, cfg, c, kw, lim = job
-        got = ctx.tlc_generate(sd, "MetaDataGen", cfg, timeout=1200, **kw)
-        return [(tag, auto, b) for b in (got[:lim] if lim else got)]
+        got = ctx.tlc_generate(sd, "MetaDataGen", cfg, timeout=1800, **kw)
+        got = got[:lim] if lim else got
+        path = ctx.write_json("logs-%s.json" % tag, input_obj(auto, reps, got))
+        return (tag, path, len(got))
 
     with concurrent.futures.ThreadPoolExecutor(max_workers=4) as ex:
-        parts = list(ex.map(one, jobs))
-    return [b for p in parts for b in p]
+        return list(ex.map(one, jobs))
 
 
-def replay(ctx, behs, reps, label):
-    """behs: list of (tag, autocreate, behaviour).  One go test run per AutoCreate value."""
-    totals = collections.Counter()
-    cover = collections.Counter()
-    for auto in (True, False):
-        sel = [b for (_, a, b) in behs if a == auto]
-        if not sel:
-            continue
-        inp = {"consts": {"MinDur": 2, "AutoCreate": auto}, "reps": reps, "strictPublished": STRICT_PUBLISHED, "behaviours": sel}
-        p = ctx.write_json("logs-%s-%s.json" % (label, auto), inp)
+def input_obj(auto, reps, behs):
+    return {"consts": {"MinDur": 2, "AutoCreate": auto}, "reps": reps, "strictPublished": STRICT_PUBLISHED, "behaviours": behs}
 
-        def confirm(rp):
-            one = {"consts": rp["consts"], "reps": 200, "strictPublished": STRICT_PUBLISHED, "behaviours": [rp["behaviour"]]}
-            recs, out, rc = ctx.go_test(PKG, FILES, "^%s$" % TEST, env={"VERIF_IN": ctx.write_json("confirm.json", one)},
-                                        timeout=600, label="confirm")
-            return any(r.get("k") == "mismatch" for r in recs)
 
-        recs, out, rc = ctx.go_test(PKG, FILES, "^%s$" % TEST, env={"VERIF_IN": p}, timeout=1800, label=label)
-        done = ctx.process(recs, out, rc, TEST, confirm)
-        for k in ("behaviours", "steps", "applies", "restores", "rejected", "rejected_stamped_published", "mismatching_behaviours"):
-            totals[k] += done.get(k, 0)
-        cover.update(done.get("cover", {}))
-    return totals, cover
+def replay(ctx, paths, label):
+    """One go test run over all input files."""
+    def confirm(rp):
+        one = input_obj(bool(rp["consts"].get("AutoCreate", True)), 200, [rp["behaviour"]])
+        one["consts"] = rp["consts"]
+        recs, out, rc = ctx.go_test(PKG, FILES, "^%s$" % TEST, env={"VERIF_IN": ctx.write_json("confirm.json", one)},
+                                    timeout=600, label="confirm")
+        return any(r.get("k") == "mismatch" for r in recs)
+
+    recs, out, rc = ctx.go_test(PKG, FILES, "^%s$" % TEST, env={"VERIF_IN": ",".join(paths)}, timeout=2400, label=label)
+    done = ctx.process(recs, out, rc, TEST, confirm)
+    totals = {k: done.get(k, 0) for k in ("behaviours", "steps", "applies", "restores", "rejected", "rejected_stamped_published",
+                                          "mismatching_behaviours")}
+    return totals, collections.Counter(done.get("cover", {})), done.get("mismatch_signatures", {})
 
 
 def run(ctx):
     sd = ctx.spec_dir("metadata")
     if ctx.replay:
         rp = json.load(open(ctx.replay))["replay"]
-        behs = [("replay", bool(rp["consts"].get("AutoCreate", True)), rp["behaviour"])]
-        totals, cover = replay(ctx, behs, 200, "replay")
+        one = input_obj(bool(rp["consts"].get("AutoCreate", True)), 200, [rp["behaviour"]])
+        totals, cover, sigs = replay(ctx, [ctx.write_json("replay.json", one)], "replay")
         return ctx.finish("model_checking", {"replayed_behaviours": totals["behaviours"]})
 
-    # 1. exhaustive model checking, one configuration per family
-    t0 = time.time()
-    if not os.environ.get("C06_SKIP_MC"):      # development aid (mutation self-test): replay only
-        mc(ctx, sd)
-    log("C06: model checking %.0fs" % (time.time() - t0))
+    # 1. exhaustive model checking, one configuration per family -- runs beside generation and replay
+    import concurrent.futures
+    bg = concurrent.futures.ThreadPoolExecutor(max_workers=1)
+    tmc = time.time()
+    fut = bg.submit(mc, ctx, sd) if not os.environ.get("C06_SKIP_MC") else None   # SKIP: development aid (mutation self-test)
     if os.environ.get("C06_MC_ONLY"):
+        fut.result()
         return ctx.finish("model_checking", {})
 
     # 2. command logs -> real storeFSM replicas
     t0 = time.time()
-    behs = gen_inputs(ctx, sd)
-    log("C06: %d command logs generated in %.0fs" % (len(behs), time.time() - t0))
+    files = gen_inputs(ctx, sd)
+    nlogs = sum(n for (_, _, n) in files)
+    log("C06: %d command logs generated in %.0fs" % (nlogs, time.time() - t0))
     t0 = time.time()
-    reps = ctx.pick(3, 5)
-    totals, cover = replay(ctx, behs, reps, "replay")
-    log("C06: replay %.0fs: %s" % (time.time() - t0, dict(totals)))
+    totals, cover, sigs = replay(ctx, [p for (_, p, _) in files], "replay")
+    log("C06: replay %.0fs: %s %s" % (time.time() - t0, totals, sigs or ""))
     ctx.cov["traces_validated_against_impl"] += totals["behaviours"]
-    # vacuity: every command type must have been accepted at least once and every error class of the model seen
+    if fut is not None:
+        fut.result()      # raises Infra on a model-level violation / timeout
+        log("C06: model checking done after %.0fs" % (time.time() - tmc))
+    # vacuity: every command type must have been accepted at least once in the replayed logs
     missing = [t for t in ALL_CMDS if not cover.get(t + ":ok")]
     if missing and not ctx.violations:
         raise Infra("command types never accepted in any replayed log: %s" % missing)
-    tags = collections.Counter(t for (t, _, _) in behs)
     extra = {"replayed_behaviours": totals["behaviours"], "replayed_steps": totals["steps"], "applies": totals["applies"],
-             "replicas": 3, "repetitions_per_log": reps, "snapshot_restore_round_trips": totals["restores"],
+             "replicas": 3, "repetitions_per_log": ctx.pick(3, 5), "snapshot_restore_round_trips": totals["restores"],
              "rejected_commands": totals["rejected"],
              "rejected_commands_stamped_into_published_value": totals["rejected_stamped_published"],
              "command_result_pairs_covered": len(cover), "command_result_coverage": dict(sorted(cover.items())),
-             "log_sources": dict(tags)}
+             "log_sources": {tag: n for (tag, _, n) in files}}
     return ctx.finish("model_checking", extra, assumptions=[
         "hashicorp/raft delivers the same log entries in the same order to every replica (C07 covers replication)",
         "RemovePeerCommand / CreateNodeCommand (need a live raft instance) and SetDataCommand are not replayed",
